@@ -25,10 +25,22 @@ NPROC = int(os.environ.get("VERIF_PROCS", "16"))
 
 
 class Violation(Exception):
-    def __init__(self, case, message):
+    def __init__(self, case, message, terminal=False):
         super().__init__(message)
         self.case = case
         self.message = message
+        self.terminal = terminal  # do not try to shrink (e.g. every attempt would cost a watchdog period)
+
+
+class _Watchdog(Exception):
+    pass
+
+
+def _on_alarm(signum, frame):
+    raise _Watchdog()
+
+
+CASE_TIMEOUT = float(os.environ.get("VERIF_CASE_TIMEOUT", "45"))
 
 
 class HarnessError(Exception):
@@ -162,9 +174,35 @@ def exc_bucket(exc):
 
 def guarded(oracle, case, stats):
     """Run oracle; turn unexpected library exceptions into violations, harness ones into HarnessError."""
+    import signal
+    import threading
+    armed = False
+    if threading.current_thread() is threading.main_thread() and hasattr(signal, "setitimer"):
+        try:
+            if signal.getitimer(signal.ITIMER_REAL)[0] == 0:
+                old = signal.signal(signal.SIGALRM, _on_alarm)
+                signal.setitimer(signal.ITIMER_REAL, CASE_TIMEOUT)
+                armed = True
+        except (ValueError, OSError):
+            armed = False
+    try:
+        return _guarded(oracle, case, stats)
+    except _Watchdog:
+        # four orders of magnitude above the normal cost of a case: the code under test hangs or explodes on this input
+        raise Violation(case, "the code under test did not finish within %.0f s on this case (normal cost: milliseconds) - hang or super-linear blow-up" % CASE_TIMEOUT,
+                        terminal=True)
+    finally:
+        if armed:
+            signal.setitimer(signal.ITIMER_REAL, 0)
+            signal.signal(signal.SIGALRM, old)
+
+
+def _guarded(oracle, case, stats):
     try:
         return oracle(case, stats)
     except Violation:
+        raise
+    except _Watchdog:
         raise
     except HarnessError:
         raise
@@ -216,6 +254,10 @@ def hyp(stats: Stats, strategy, oracle, max_examples, seed_value, shrink=True, l
               print_blob=False, verbosity=hypothesis.Verbosity.quiet)
     @given(strategy)
     def test(case):
+        if box.get("terminal"):
+            if case == box["best"]:
+                raise box["v"]
+            return
         if "best" in box:
             # shrinking is bounded by executions, not wall clock: beyond the budget every candidate other than the
             # current best is treated as "does not fail", so Hypothesis settles on the best case found so far
@@ -227,6 +269,8 @@ def hyp(stats: Stats, strategy, oracle, max_examples, seed_value, shrink=True, l
         except Violation as v:
             box["v"] = v
             box["best"] = case
+            if v.terminal:
+                box["terminal"] = True
             raise
         except HarnessError as h:
             box["h"] = h
